@@ -652,7 +652,67 @@ func TestC09Range(t *testing.T) {
 				return fmt.Sprintf("C09 violated: Range (everything by ID) %s\ncase: %s", p, desc)
 			}
 
-			return stillHeld()
+			if m := stillHeld(); m != "" {
+				return m
+			}
+
+			// The members of a collection may change between two requests
+			// (through the resources At hands out): the same request again
+			// goes by what they hold then.
+			attr := ""
+
+			for _, rule := range rules {
+				if n := strings.TrimPrefix(rule, "-"); n != "id" && attr == "" {
+					attr = n
+				}
+			}
+
+			if tree == nil && hasID && attr != "" && len(items) >= 2 {
+				var got []string
+
+				mod := map[string]rangeItem{}
+				for id, it := range byID {
+					mod[id] = it
+				}
+
+				if p := oracle.Try(func() {
+					jsonapi.Range(col, argIDs, nil, argRules, uint(len(items)+1), 0)
+
+					first, last := col.At(0), col.At(col.Len()-1)
+					vf, vl := first.Get(attr), last.Get(attr)
+					first.Set(attr, vl)
+					last.Set(attr, vf)
+
+					for _, pair := range [][2]any{{first.Get("id"), vl}, {last.Get("id"), vf}} {
+						it := byID[pair[0].(string)]
+						vals := map[string]any{}
+
+						for k, v := range it.vals {
+							vals[k] = v
+						}
+
+						vals[attr] = pair[1]
+						mod[it.id] = rangeItem{id: it.id, vals: vals}
+					}
+
+					got = idsOf(jsonapi.Range(col, argIDs, nil, argRules, uint(len(items)+1), 0))
+				}); p != nil {
+					return fmt.Sprintf("C09 violated: Range after two members exchanged their %q %s\ncase: %s", attr, p, desc)
+				}
+
+				want := []rangeItem{}
+				for _, it := range matches {
+					want = append(want, mod[it.id])
+				}
+
+				sort.SliceStable(want, func(i, j int) bool { return compareByRules(&ts, rules, want[i], want[j]) < 0 })
+
+				if !reflect.DeepEqual(got, itemIDs(want)) {
+					return fmt.Sprintf("C09 violated: after the first and the last member exchanged their %q the same request gives %q, want %q\ncase: %s", attr, got, itemIDs(want), desc)
+				}
+			}
+
+			return ""
 		}
 
 		if msg := verify(rules); msg != "" {
